@@ -220,6 +220,9 @@ func (c *Ctx) callsTransitively(fn *ssa.Function, depth int, match func(*core.Ca
 		return false
 	}
 	for _, cl := range core.CallsIn(fn) {
+		if _, isGo := cl.Instr.(*ssa.Go); isGo {
+			continue // starting a goroutine is not calling it
+		}
 		if match(cl) {
 			return true
 		}
